@@ -65,4 +65,9 @@ def asmRun (tdFails : Nat â†’ Bool) (parts : List Part) : List AsmEv Ã— AsmRes Ã
   | some p => ([], .failed "unpack" p.id, [])
   | none => placeLoop tdFails parts []
 
+/-- `Run` as it is since the `fix:` of round 14: filler-directory properties that do not describe a directory are refused
+    before anything is unpacked or placed (`fillerIsDir` = `fillerDirProps.Type == fs.Type_Dir`). -/
+def asmRunChecked (fillerIsDir : Bool) (tdFails : Nat â†’ Bool) (parts : List Part) : List AsmEv Ã— AsmRes Ã— List Janitor :=
+  if fillerIsDir then asmRun tdFails parts else ([], .failed "filler" 0, [])
+
 end Rio
